@@ -30,6 +30,10 @@ inductive Rule where
   | rsv
   /-- uni **crossbeam** `send`: `len_before ≤ 2 → wake(0)` (length read before the insertion) -/
   | cb
+  /-- a listener of a Multi **atomic** channel (arc / ogre_arc): `len_after ≤ 2 → wake(that listener)` -/
+  | m2
+  /-- a listener of a Multi **full-sync** channel: `len_after ≤ 1 → wake(that listener)` -/
+  | m1
   deriving DecidableEq, Repr
 
 def Rule.target (r : Rule) (MAX lenAfter : Nat) : Option Nat :=
@@ -38,6 +42,8 @@ def Rule.target (r : Rule) (MAX lenAfter : Nat) : Option Nat :=
   | .atomic => if lenAfter ≤ MAX then some (lenAfter - 1) else if lenAfter = MAX + 1 then some (lenAfter - 2) else none
   | .rsv    => if lenAfter ≤ MAX then some (lenAfter - 1) else none
   | .cb     => if lenAfter - 1 ≤ 2 then some 0 else none
+  | .m2     => if lenAfter ≤ 2 then some 0 else none
+  | .m1     => if lenAfter ≤ 1 then some 0 else none
 
 inductive Res where
   | ok
